@@ -2,12 +2,17 @@
 Line-protocol driver: dispatch on the first word of each line.
 -/
 import Univers.Driver.Util
-import Univers.Driver.Vers
+import Univers.Driver.Alpm
 import Univers.Driver.Gem
+import Univers.Driver.Gentoo
+import Univers.Driver.Openssl
+import Univers.Driver.Rpm
+import Univers.Driver.Semver
+import Univers.Driver.Vers
 
 namespace Univers.Driver
 
-def handlers : List (List String → Option String) := [versCmd, gemCmd]
+def handlers : List (List String → Option String) := [alpmCmd, gemCmd, gentooCmd, opensslCmd, rpmCmd, semverCmd, versCmd]
 
 def answer (line : String) : String :=
   let ws := (line.splitOn " ").filter (· ≠ "")
